@@ -476,6 +476,14 @@ def run(ck):
         with open(path, "wb") as f:
             f.write(data)
         mods.append((path, d, exp_orders, data))
+    # minimised past failures first (regression corpus): no description, only oracle + correspondence
+    cdir = os.path.join(vlib.VERIF, "corpus", "C18")
+    corpus = []
+    if os.path.isdir(cdir):
+        for fn in sorted(os.listdir(cdir)):
+            pth = os.path.join(cdir, fn)
+            corpus.append((pth, None, None, open(pth, "rb").read()))
+    mods = corpus + mods
     nshards = 16
     shards = [(exe, rate, maxframes, [m[0] for m in mods[s::nshards]]) for s in range(nshards)]
     shards = [s for s in shards if s[3]]
@@ -483,7 +491,7 @@ def run(ck):
     bypath = {m[0]: m for m in mods}
     stats = dict(modules=0, sequences=0, multi_sequence_modules=0, frames=0, rows=0, capped=0, loadfail=0,
                  jumps_beyond_len=0, marker_orders=0, invalid_orders=0, restart_nonzero=0, one_row_patterns=0,
-                 nobpm=0, rejected_both=0, oracle_failures=0, model_traces_agree=0, foreign_end=0)
+                 nobpm=0, rejected_both=0, corpus_cases=0, oracle_failures=0, model_traces_agree=0, foreign_end=0)
     per_fmt = {f: 0 for f in FORMATS}
     for (rc, out, err), sh in zip(results, shards):
         cases = parse_cases(out)
@@ -500,13 +508,16 @@ def run(ck):
         mi = 0
         for c in cases:
             path, d, exp_orders, data = bypath[c["file"]]
-            fmt = d["fmt"]
+            fmt = d["fmt"] if d else path.rsplit(".", 1)[-1]
+            if d is None:
+                d = dict(fmt=fmt, pats=[], rst=0, orders=[])
+                exp_orders = None
             rp = {"fmt": fmt, "hex": data.hex(), "desc": d, "rate": rate, "maxframes": maxframes}
             if any(n.startswith("loadfail") for n in c["notes"]):
                 # the library refuses a module whose main sequence has no playable order; the model must agree
                 stats["loadfail"] += 1
                 if ck.lean_ok:
-                    mo = vlib.run_driver("drv_c18", "\n".join(intended_model_in(d, exp_orders)) + "\n")
+                    mo = vlib.run_driver("drv_c18", "\n".join(intended_model_in(d, exp_orders)) + "\n") if exp_orders is not None else None
                     if not mo or mo[0] != "scan fail":
                         ck.unproved("correspondence: module rejected by the library but accepted by the model (or unloadable writer output)",
                                     "%s: %s model=%s" % (os.path.basename(path), c["notes"], mo[:2]))
@@ -526,7 +537,10 @@ def run(ck):
                 continue
             if aux and " nobpm 1" in aux[0]:
                 stats["nobpm"] += 1
-            bad = loaded_matches_intended(d, exp_orders, c["model_in"])
+            bad = loaded_matches_intended(d, exp_orders, c["model_in"]) if exp_orders is not None else None
+            if exp_orders is None:
+                exp_orders = [int(x) for x in c["model_in"][1].split()[1:]]
+                stats["corpus_cases"] += 1
             if bad:
                 ck.unproved("effect translation (writer vs loader)", "%s: %s" % (os.path.basename(path), bad))
                 continue
